@@ -601,7 +601,8 @@ def hist_stream(spec, upto=None, want_last=False):
         nmax = min(12, gd["n"] + 2)
     labels = B.make_labels(scheme, nmax)
     st = {"n": gd["n"], "edges": [list(e) for e in gd["edges"]], "labels": labels, "scheme": scheme, "W": W, "nmax": nmax}
-    sh = _shared(labels, nmax if big else gd["n"], st["edges"], tuples=rng.random() < 0.5)
+    tuples = rng.random() < 0.5
+    sh = _shared(labels, nmax if big else gd["n"], st["edges"], tuples=tuples)
     out = {"viol": [], "n": 0, "last": None, "trace": []}
     cls = HistBigG if big else HistG
     steps = spec["steps"] if upto is None else upto + 1
@@ -632,6 +633,13 @@ def hist_stream(spec, upto=None, want_last=False):
                 except B.SolverRaised as e:
                     v, summ = [(f"{P}/{p['k']}/ensures:returns-a-result", str(e))], None
                 out["n"] += 1
+                if not _mirror_ok(st, sh):
+                    # the call changed an object that belongs to the caller (frame clause, round 3): report it and go on with
+                    # freshly built shared objects (the stream's model is the reference)
+                    v = list(v) + [(f"{P}/{p['k']}/frame:caller-owned-inputs-unchanged",
+                                    "the shared adjacency lists / edge list differ from the caller's model after this call")]
+                    sh = _shared(labels, nmax if big else st["n"], st["edges"], tuples=tuples)
+                    Gr.bind(sh)
                 for obl, det in v:
                     out["viol"].append((step, obl, p, det, snap))
                 if summ is not None and p["k"] != "fw" and not big:
@@ -791,8 +799,15 @@ def grid_stream(spec, upto=None):
             except B.SolverRaised as e:
                 v = [(f"{P}/astar_grid/ensures:returns-a-result", str(e))]
             out["n"] += 1
-            if grid != snap or set(blocked) != set(p["blocked"]):
-                raise AssertionError("grid history harness: arguments changed during the call")
+            if grid != snap or set(blocked) != set(p["blocked"]) or sorted(costs.items()) != [tuple(x) for x in p.get("costs", [])]:
+                # the call changed an argument that belongs to the caller (frame clause, round 3): report it, restore, go on
+                v = list(v) + [(f"{P}/astar_grid/frame:caller-owned-inputs-unchanged", "grid / costs / blocked differ after the call")]
+                for r_, row in enumerate(snap):
+                    grid[r_][:] = row
+                blocked.clear()
+                blocked.update(p["blocked"])
+                costs.clear()
+                costs.update({k_: v_ for k_, v_ in p.get("costs", [])})
             for obl, det in v:
                 out["viol"].append((step, obl, p, det, snap))
     return out
